@@ -167,6 +167,8 @@ fn recv(receiver: &Receiver<A>) -> IO<Result<Unrooted<A>, ()>> {
 }
 
 fn send(sender: &Sender<A>, value: Generic<A>) -> IO<Result<(), ()>> {
+    #[cfg(feature = "verif_hooks")]
+    crate::verif::sched_point("channel_send");
     let value = match sender
         .thread
         .deep_clone_value(&sender.thread, value.get_value())
